@@ -238,6 +238,12 @@ func ParseTokenParam(buf []byte, offs int, param *PTokParam,
 					// do nothing, allow empty params, just skip them
 					break
 				}
+				if c == term && term != 0 {
+					// terminator after a separator or at the start
+					// (empty param): end of the param list
+					param.state = paramFIN
+					return i, ErrHdrOk
+				}
 				if !tokAllowedChar(c, flags) {
 					param.state = paramERR
 					return i, ErrHdrBadChar
